@@ -85,12 +85,12 @@ def vfiles():
 
 # translation obligations: definitions regenerated from /repo's source on every run (harness/translate.py) and proved equal to
 # the model by conversion; a property lists the generated files its theorems lean on
-TRANSLATED = {"C05": ["NAdvanceGen", "MultistageGen", "SeqGen", "HSeqGen", "HoptGen", "OptInfGen", "Opt0Gen", "SeqPins", "AllocPins", "HelperPins"], "C13": ["NAdvanceGen", "TwoLevelGen"], "C17": ["NAdvanceGen", "SeqGen", "HSeqGen", "HoptGen", "OptInfGen", "Opt0Gen", "MemoGen", "TabulGen", "SeqPins"], "C10": ["FinalizeGen"], "C18": ["ActValGen", "EnumPins"], "C11": ["ObserversGen", "EnumPins"],
-              "C01": ["BasicGen", "TwoLevelGen", "MultistageGen", "ConverterGen", "ConvertGen", "MixedGen", "SeqGen", "HSeqGen", "HoptGen", "OptInfGen", "Opt0Gen", "MemoGen", "TabulGen", "SeqPins", "AllocPins", "EnumPins"], "C02": ["BasicGen", "TwoLevelGen", "MultistageGen", "ConverterGen", "MixedGen", "SeqGen", "HSeqGen", "HoptGen", "OptInfGen", "Opt0Gen", "MemoGen", "TabulGen", "SeqPins", "AllocPins", "EnumPins"],
-              "C03": ["BasicGen", "TwoLevelGen", "MultistageGen", "ConverterGen", "MixedGen", "SeqGen", "HSeqGen", "HoptGen", "OptInfGen", "Opt0Gen", "MemoGen", "TabulGen", "SeqPins", "AllocPins", "EnumPins"], "C04": ["BasicGen", "TwoLevelGen", "MultistageGen", "ConverterGen", "MixedGen", "SeqGen", "HSeqGen", "HoptGen", "OptInfGen", "Opt0Gen", "MemoGen", "TabulGen", "SeqPins", "AllocPins", "EnumPins"],
-              "C08": ["BasicGen", "TwoLevelGen", "MultistageGen", "ConverterGen", "MixedGen", "SeqGen", "HSeqGen", "HoptGen", "OptInfGen", "Opt0Gen", "MemoGen", "TabulGen", "SeqPins", "AllocPins", "EnumPins"], "C09": ["BasicGen", "TwoLevelGen", "MultistageGen", "ConverterGen", "MixedGen", "SeqGen", "HSeqGen", "HoptGen", "OptInfGen", "Opt0Gen", "MemoGen", "TabulGen", "SeqPins", "AllocPins", "EnumPins"],
-              "C12": ["BasicGen", "TwoLevelGen", "MultistageGen", "ConverterGen", "ConvertGen", "MixedGen", "SeqGen", "HSeqGen", "HoptGen", "OptInfGen", "Opt0Gen", "MemoGen", "TabulGen", "SeqPins", "AllocPins", "EnumPins"], "C14": ["MultistageGen", "AllocPins"], "C06": ["MemoGen", "MixedGen", "TabulGen", "HelperPins"], "C15": ["MemoGen", "TabulGen", "BasicGen", "TwoLevelGen", "MultistageGen", "ConverterGen", "MixedGen", "SeqGen", "HSeqGen", "HoptGen", "OptInfGen", "Opt0Gen", "SeqPins", "AllocPins", "EnumPins"],
-              "C16": ["MemoGen", "MixedGen", "TabulGen"], "C07": ["SeqGen", "HSeqGen", "HoptGen", "OptInfGen", "Opt0Gen", "SeqPins"], "C19": ["SeqGen", "HSeqGen", "HoptGen", "OptInfGen", "Opt0Gen", "SeqPins"]}
+TRANSLATED = {"C05": ["NAdvanceGen", "MultistageGen", "SeqGen", "HSeqGen", "ArgminGen", "HoptGen", "OptInfGen", "Opt0Gen", "SeqPins", "AllocPins", "HelperPins"], "C13": ["NAdvanceGen", "TwoLevelGen"], "C17": ["NAdvanceGen", "SeqGen", "HSeqGen", "ArgminGen", "HoptGen", "OptInfGen", "Opt0Gen", "MemoGen", "TabulGen", "SeqPins"], "C10": ["FinalizeGen"], "C18": ["ActValGen", "EnumPins"], "C11": ["ObserversGen", "EnumPins"],
+              "C01": ["BasicGen", "TwoLevelGen", "MultistageGen", "ConverterGen", "ConvertGen", "MixedGen", "SeqGen", "HSeqGen", "ArgminGen", "HoptGen", "OptInfGen", "Opt0Gen", "MemoGen", "TabulGen", "SeqPins", "AllocPins", "EnumPins"], "C02": ["BasicGen", "TwoLevelGen", "MultistageGen", "ConverterGen", "MixedGen", "SeqGen", "HSeqGen", "ArgminGen", "HoptGen", "OptInfGen", "Opt0Gen", "MemoGen", "TabulGen", "SeqPins", "AllocPins", "EnumPins"],
+              "C03": ["BasicGen", "TwoLevelGen", "MultistageGen", "ConverterGen", "MixedGen", "SeqGen", "HSeqGen", "ArgminGen", "HoptGen", "OptInfGen", "Opt0Gen", "MemoGen", "TabulGen", "SeqPins", "AllocPins", "EnumPins"], "C04": ["BasicGen", "TwoLevelGen", "MultistageGen", "ConverterGen", "MixedGen", "SeqGen", "HSeqGen", "ArgminGen", "HoptGen", "OptInfGen", "Opt0Gen", "MemoGen", "TabulGen", "SeqPins", "AllocPins", "EnumPins"],
+              "C08": ["BasicGen", "TwoLevelGen", "MultistageGen", "ConverterGen", "MixedGen", "SeqGen", "HSeqGen", "ArgminGen", "HoptGen", "OptInfGen", "Opt0Gen", "MemoGen", "TabulGen", "SeqPins", "AllocPins", "EnumPins"], "C09": ["BasicGen", "TwoLevelGen", "MultistageGen", "ConverterGen", "MixedGen", "SeqGen", "HSeqGen", "ArgminGen", "HoptGen", "OptInfGen", "Opt0Gen", "MemoGen", "TabulGen", "SeqPins", "AllocPins", "EnumPins"],
+              "C12": ["BasicGen", "TwoLevelGen", "MultistageGen", "ConverterGen", "ConvertGen", "MixedGen", "SeqGen", "HSeqGen", "ArgminGen", "HoptGen", "OptInfGen", "Opt0Gen", "MemoGen", "TabulGen", "SeqPins", "AllocPins", "EnumPins"], "C14": ["MultistageGen", "AllocPins"], "C06": ["MemoGen", "MixedGen", "TabulGen", "HelperPins"], "C15": ["MemoGen", "TabulGen", "BasicGen", "TwoLevelGen", "MultistageGen", "ConverterGen", "MixedGen", "SeqGen", "HSeqGen", "ArgminGen", "HoptGen", "OptInfGen", "Opt0Gen", "SeqPins", "AllocPins", "EnumPins"],
+              "C16": ["MemoGen", "MixedGen", "TabulGen"], "C07": ["SeqGen", "HSeqGen", "ArgminGen", "HoptGen", "OptInfGen", "Opt0Gen", "SeqPins"], "C19": ["SeqGen", "HSeqGen", "ArgminGen", "HoptGen", "OptInfGen", "Opt0Gen", "SeqPins"]}
 
 
 def translation_layer(pid, res):
@@ -347,11 +347,31 @@ def replay(pid, path):
         print("replay file names no case (theorem/correspondence failure): %s" % payload.get("theorem_or_component"))
         return 1
     ok, msg = ensure_driver()
-    model, impl, errors = runner.run_all([line], jobs=1, chunks_per_job=1)
-    cid = line.split()[1]
-    fnd = [f for f in oracles.all_findings([line], impl) if f["pid"] == pid]
-    a, b = props.project(pid, cid, model.get(cid)), props.project(pid, cid, impl.get(cid))
-    d = first_diff(a, b) if a != b else None
+    if line.startswith("I "):
+        # an interleaved case: the implementation runs the objects together, the model each of them alone; an object whose trace
+        # differs is run alone on the implementation as well (C15: history dependence when that differs from the interleaved trace)
+        ident = line.split()[1]
+        slines = ["S %s/%d %s" % (ident, j, x) for j, x in enumerate(line.split(" | ", 1)[1].split(" || "))]
+        model, impl, errors = runner.run_all([line] + slines, jobs=1, chunks_per_job=1)
+        fnd, d = [], None
+        for sl in slines:
+            sid = sl.split()[1]
+            a, b = props.project(pid, sid, model.get(sid)), props.project(pid, sid, impl.get(sid))
+            if a != b:
+                d = d or dict(object=sid, **(first_diff(a, b) or {}))
+                code, out, err = runner.run_impl([sl])
+                alone = runner.split_traces(out).get(sid)
+                if alone != impl.get(sid):
+                    fnd.append(dict(pid="C15", cid=sid, line=line, err="history_dependence", d8=False,
+                                    what="object %s: its trace among the other objects differs from its trace alone in a fresh interpreter" % sid.split("/")[1]))
+        fnd = [f for f in fnd if f["pid"] == pid] + [f for f in oracles.all_findings(slines, impl) if f["pid"] == pid]
+        cid = ident
+    else:
+        model, impl, errors = runner.run_all([line], jobs=1, chunks_per_job=1)
+        cid = line.split()[1]
+        fnd = [f for f in oracles.all_findings([line], impl) if f["pid"] == pid]
+        a, b = props.project(pid, cid, model.get(cid)), props.project(pid, cid, impl.get(cid))
+        d = first_diff(a, b) if a != b else None
     print("case:", line)
     print("oracle findings:", [(f["err"], f.get("what")) for f in fnd])
     print("model/implementation difference:", d)
